@@ -215,8 +215,11 @@ def judge_batch(ref_ok, ref_err, exp_stack, b, last_op):
                 rows.append(("stdout-differs:" + cls, "expected stdout %r, got %r" % (exp, b["out"][:300])))
     else:
         if b["rc"] == 0:
-            rows.append(("outcome-differs:ref=%s:impl=ok" % ref_err,
-                         "reference fails with %s; btcdeb exit 0, stdout %r" % (ref_err, b["out"][:200])))
+            if errtext is not None:
+                rows.append(("exit-0-despite-error-line", "btcdeb reports 'error: %s' on stderr but exits 0 (reference: %s)" % (errtext, ref_err)))
+            else:
+                rows.append(("outcome-differs:ref=%s:impl=ok" % ref_err,
+                             "reference fails with %s; btcdeb exit 0, stdout %r" % (ref_err, b["out"][:200])))
             oc = "ok-unexpected"
         else:
             oc = "fail:" + ref_err
@@ -236,7 +239,9 @@ def judge_vs_tty(b, errtext, t, terr, tstack):
         return rows
     if b["rc"] == 0:
         got = b["out"].split("\n")[:-1]
-        if terr is not None:
+        if terr is not None and terr == errtext:
+            pass    # batch printed the same error line but exited 0: reported by the batch oracle
+        elif terr is not None:
             rows.append(("batch-vs-interactive:batch=ok:interactive=error(%s)" % slug(terr),
                          "batch exit 0 stdout %r but stepping reports 'error: %s'" % (b["out"][:200], terr)))
         elif tstack is None:
